@@ -31,7 +31,11 @@ Definition oracle_at (lives : list obs) (ends : list N) (k : N) (ro : option obs
    file length right after open (= after tail repair), the log file bytes after the last call,
    recovery observations for crash offsets, and the offset the next generation continues from *)
 Definition gen_rec :=
-  (list op * list bool * list obs * list N * N * list byte * list (N * N * N * option obs) * N)%type.
+  (list op * list bool * list obs * list N * list N * N * list byte * list (N * N * N * option obs) * N)%type.
+  (* ops, results, live observations, LOGICAL end offset of each call's records (WalStatus.size_bytes),
+     ACK offset of each call (= its end offset once an fsync covered it: immediately under
+     SyncMode::Immediate, at the next batch / explicit sync under Batched / Manual, never = 10^18),
+     length after open, file bytes, crash observations, continuing offset *)
 (* crash observations are run-length encoded by the harness: (from, to, step, observation) means
    that recovery was run at the offsets from, from+step, .., to and showed this observation each
    time (step = 1: every byte) *)
@@ -40,8 +44,8 @@ Definition range (a z step : N) : list N :=
 Definition gens_case := (tab * N * list gen_rec)%type.
 
 Definition gen_oracle (g : gen_rec) : bool :=
-  let '(ops, results, lives, ends, base, fbytes, crashes, chosen) := g in
-  forallb (fun r => let '(a, z, stp, ro) := r in forallb (fun k => oracle_at lives ends k ro) (range a z stp)) crashes.
+  let '(ops, results, lives, ends, acks, base, fbytes, crashes, chosen) := g in
+  forallb (fun r => let '(a, z, stp, ro) := r in forallb (fun k => oracle_at lives acks k ro) (range a z stp)) crashes.
 
 (* ---------------------------------------------------------------- the model side *)
 Section M.
@@ -59,8 +63,8 @@ Fixpoint run_obs (d : dstore) (ops : list op) : dstore * list bool * list obs * 
       (d2, ok :: oks, observe K (st d1) :: os, N.of_nat (length (file d1)) :: es)
   end.
 
-Definition rec_obs (f : list byte) (k : N) : option obs :=
-  match mrecover (firstn (N.to_nat k) f) None with
+Definition rec_obs (sn : option store) (f : list byte) (k : N) : option obs :=
+  match mrecover (firstn (N.to_nat k) f) sn with
   | Some d => Some (observe K (st d))
   | None => None
   end.
@@ -70,7 +74,7 @@ Fixpoint gens_model (d : dstore) (gs : list gen_rec) : N :=
   match gs with
   | [] => V_OK
   | g :: rest =>
-      let '(ops, results, lives, ends, base, fbytes, crashes, chosen) := g in
+      let '(ops, results, lives, ends, acks, base, fbytes, crashes, chosen) := g in
       let '(d1, oks, os, es) := run_obs d ops in
       if negb (N.eqb base (N.of_nat (length (file d)))) then V_MISMATCH
       else if negb (list_eqb Bool.eqb oks results) then V_MISMATCH
@@ -78,11 +82,11 @@ Fixpoint gens_model (d : dstore) (gs : list gen_rec) : N :=
       else if negb (list_eqb N.eqb es ends) then V_MISMATCH
       else if negb (list_eqb N.eqb (file d1) fbytes) then V_MISMATCH
       else if negb (forallb (fun r => let '(a, z, stp, ro) := r in
-                                forallb (fun k => option_eqb obs_eqb (rec_obs fbytes k) ro) (range a z stp)) crashes)
+                                forallb (fun k => option_eqb obs_eqb (rec_obs (snap d) fbytes k) ro) (range a z stp)) crashes)
            then V_MISMATCH
       else match rest with
            | [] => V_OK
-           | _ => match mrecover (firstn (N.to_nat chosen) fbytes) None with
+           | _ => match mrecover (firstn (N.to_nat chosen) fbytes) (snap d) with
                   | Some d2 => gens_model d2 rest
                   | None => V_MISMATCH
                   end
@@ -94,3 +98,42 @@ Definition check_gens (c : gens_case) : N :=
   let '(t, K, gs) := c in
   if negb (forallb gen_oracle gs) then V_VIOLATION
   else gens_model t K (d0) gs.
+
+(* ---------------------------------------------------------------- crashes inside checkpoint() *)
+(* (payload table, K, calls before the checkpoint, their results, what the live store showed when
+    checkpoint() was called, the log file at that time, the marker record checkpoint() appended,
+    recovery observations per (stage, offset):
+      stage 0 = snapshot not yet written          (no/old snapshot, whole log)
+      stage 1 = snapshot written                  (new snapshot, whole log)
+      stage 2 = marker record being appended      (new snapshot, log + `offset` bytes of the marker)
+      stage 3 = log truncated                     (new snapshot, empty log)
+    then one generation of calls after the checkpoint, crashed at every byte, recovered WITH the snapshot) *)
+Definition ckpt_case :=
+  (tab * N * list op * list bool * obs * list byte * list byte * list (N * N * option obs) * gen_rec)%type.
+
+(* "taking a checkpoint never loses or resurrects data, wherever a crash falls inside it":
+   every recovery from a crash state inside checkpoint() shows exactly what the live store showed *)
+Definition ckpt_oracle (c : ckpt_case) : bool :=
+  let '(t, K, ops1, res1, live, w, m, stages, g2) := c in
+  forallb (fun x => let '(_, _, ro) := x in option_eqb obs_eqb ro (Some live)) stages && gen_oracle g2.
+
+Definition check_ckpt (c : ckpt_case) : N :=
+  let '(t, K, ops1, res1, live, w, m, stages, g2) := c in
+  if negb (ckpt_oracle c) then V_VIOLATION
+  else
+    let '(d1, oks, os, es) := run_obs t K d0 ops1 in
+    if negb (list_eqb Bool.eqb oks res1) then V_MISMATCH
+    else if negb (obs_eqb (observe K (st d1)) live) then V_MISMATCH
+    else if negb (list_eqb N.eqb (file d1) w) then V_MISMATCH
+    else if negb (list_eqb N.eqb (log_bytes (ser_of t) crc32u true [Checkpoint (ctr d1)]) m) then V_MISMATCH
+    else if negb (gen_ckpt_order_ok) then V_MISMATCH
+    else if negb (forallb (fun x =>
+                    let '(stage, off, ro) := x in
+                    let sn := Some (st d1) in
+                    let mo :=
+                      if stage =? 0 then rec_obs t K (snap d1) w (N.of_nat (length w))
+                      else if stage =? 1 then rec_obs t K sn w (N.of_nat (length w))
+                      else if stage =? 2 then rec_obs t K sn (w ++ m) (N.of_nat (length w) + off)
+                      else rec_obs t K sn [] 0 in
+                    option_eqb obs_eqb mo ro) stages) then V_MISMATCH
+    else gens_model t K (fst (step (ser_of t) crc32u the_cfg d1 Ckpt)) [g2].
